@@ -233,18 +233,19 @@ func (o *c20Out) emit(v any) {
 func (o *c20Out) flush() { o.mu.Lock(); o.w.Flush(); o.f.Sync(); o.mu.Unlock() }
 
 type c20Route struct {
-	Idx       int      `json:"idx"`
-	Template  string   `json:"template"`
-	Prefix    bool     `json:"prefix"`
-	Methods   []string `json:"methods"` // empty = any
-	Queries   []string `json:"queries,omitempty"`
-	Host      string   `json:"host,omitempty"`
-	HasHandle bool     `json:"has_handler"`
-	Mount     bool     `json:"mount,omitempty"` // handler is itself a *mux.Router (walked recursively)
-	URL       string   `json:"url"`             // concrete URL used for this route ("" = none found)
-	MatchIdx  int      `json:"match_idx"`       // route the concrete URL is dispatched to (first registered method)
-	Depth     int      `json:"depth"`
-	hits      *int64
+	Idx           int      `json:"idx"`
+	Template      string   `json:"template"`
+	Prefix        bool     `json:"prefix"`
+	Methods       []string `json:"methods"`                  // empty = any
+	MethodsProbed bool     `json:"methods_probed,omitempty"` // no method matcher declared: Methods = the menu methods the router dispatches to it
+	Queries       []string `json:"queries,omitempty"`
+	Host          string   `json:"host,omitempty"`
+	HasHandle     bool     `json:"has_handler"`
+	Mount         bool     `json:"mount,omitempty"` // handler is itself a *mux.Router (walked recursively)
+	URL           string   `json:"url"`             // concrete URL used for this route ("" = none found)
+	MatchIdx      int      `json:"match_idx"`       // route the concrete URL is dispatched to (first registered method)
+	Depth         int      `json:"depth"`
+	hits          *int64
 }
 
 type c20Record struct {
@@ -559,9 +560,11 @@ func TestVerifC20(t *testing.T) {
 		if !r.HasHandle {
 			continue
 		}
-		meth := "GET"
-		if len(r.Methods) > 0 {
-			meth = r.Methods[0]
+		// methods to try: the declared ones, or — for a route without a method matcher, which may still restrict the
+		// method through a custom MatcherFunc — every method of the menu; the ones that really match are recorded
+		tryMeths := r.Methods
+		if len(tryMeths) == 0 {
+			tryMeths = menu
 		}
 		var cands []string
 		if r.Template == "" {
@@ -587,15 +590,27 @@ func TestVerifC20(t *testing.T) {
 				}
 				u += "?" + strings.Join(qs, "&")
 			}
-			rq := httptest.NewRequest(meth, u, nil)
-			if r.Host != "" {
-				rq.Host = c20Instantiate(r.Host)[0]
+			var matched []string
+			for _, meth := range tryMeths {
+				rq := httptest.NewRequest(meth, u, nil)
+				if r.Host != "" {
+					rq.Host = c20Instantiate(r.Host)[0]
+				}
+				var m mux.RouteMatch
+				if router.Match(rq, &m) && m.MatchErr == nil && m.Route != nil {
+					matched = append(matched, meth)
+					if r.URL == "" {
+						r.URL = u
+						if i, ok := byRoute[m.Route]; ok {
+							r.MatchIdx = i
+						}
+					}
+				}
 			}
-			var m mux.RouteMatch
-			if router.Match(rq, &m) && m.MatchErr == nil && m.Route != nil {
-				r.URL = u
-				if i, ok := byRoute[m.Route]; ok {
-					r.MatchIdx = i
+			if r.URL != "" {
+				if len(r.Methods) == 0 {
+					r.Methods = matched // what the route really accepts (custom matchers included)
+					r.MethodsProbed = true
 				}
 				break
 			}
